@@ -143,7 +143,7 @@ def main():
     }
     ev = {'property_id': pid, 'tier': tier, 'seed': seed, 'level': 'proof', 'coverage': cov,
           'assumptions': spec.get('assumptions', []), 'wall_s': round(wall, 2), 'violations': len(new_viol)}
-    engine.write_json(os.path.join(engine.VERIF, 'evidence', pid + '.json'), ev)
+    engine.write_json(os.path.join(engine.CACHE if engine.ALT else engine.VERIF, 'evidence', pid + '.json'), ev)
     log('%s %s: %d evaluations, %d theorems, %d violations, %.1fs' % (pid, tier, ctx.evaluations, len(names), len(new_viol), wall))
     return rc
 
